@@ -68,11 +68,18 @@ class ResultCache:
         self.dir = os.path.join(VERIF_ROOT, "scratch", "cache", key)
         base = os.path.dirname(self.dir)
         os.makedirs(self.dir, exist_ok=True)
-        for other in os.listdir(base):
-            if other != key:
-                import shutil
+        import shutil
+        import time
 
-                shutil.rmtree(os.path.join(base, other), ignore_errors=True)
+        for other in os.listdir(base):
+            # results for other trees: drop them once they are old (another check may be running
+            # concurrently on a different tree - seeded-change matrix - and still use its own)
+            po = os.path.join(base, other)
+            try:
+                if other != key and time.time() - os.path.getmtime(po) > 3 * 3600:
+                    shutil.rmtree(po, ignore_errors=True)
+            except OSError:
+                pass
 
     def path(self, q):
         return os.path.join(self.dir, slug(q) + ".json")
@@ -87,9 +94,14 @@ class ResultCache:
             return None
 
     def put(self, q, rep):
-        with open(self.path(q) + ".tmp", "w") as f:
-            json.dump(rep, f, default=str)
-        os.replace(self.path(q) + ".tmp", self.path(q))
+        try:  # an optimisation only: never let it break a check
+            os.makedirs(self.dir, exist_ok=True)
+            tmp = self.path(q) + f".{os.getpid()}.tmp"
+            with open(tmp, "w") as f:
+                json.dump(rep, f, default=str)
+            os.replace(tmp, self.path(q))
+        except OSError:
+            pass
 
 
 class CachedReport:
